@@ -29,7 +29,7 @@ def shape(copier, block_kind="seq"):
 def shape_sequence(copier):
     def sh(B):
         f = new_file(B.I, B.st, "wb")
-        return {"f": f, "copier": copier, "a": B.symbytes("a", 3), "addr_a": B.int("addr_a"), "b": B.symbytes("b", 1), "addr_b": B.int("addr_b")}
+        return {"f": f, "copier": copier, "a": B.symbytes("a", 3), "addr_a": B.int("addr_a"), "b": B.symbytes("b", 1), "addr_b": B.int("addr_b"), "c": B.symbytes("c", 3)}
     return sh
 
 
@@ -73,7 +73,7 @@ def cases(E):
         cs.append(Case(H + "ips_header_contract", lab, shape(copier), target=[W + "write_block_header"]))
         cs.append(Case(H + "ips_write_block_exact_contract", lab, shape(copier), target=[W + "write_block"], no_loop_specs=True))
         cs.append(Case(H + "ips_write_block_any_length_contract", lab, shape(copier), target=[W + "write_block"]))
-        cs.append(Case(H + "ips_sequence_contract", "A at X, B at Y, A at X again; " + lab, shape_sequence(copier), target=[W + "__init__", W + "write_block", W + "begin", W + "end"], no_loop_specs=True))
+        cs.append(Case(H + "ips_sequence_contract", "A at X, B at Y, A at X again, C at X; " + lab, shape_sequence(copier), target=[W + "__init__", W + "write_block", W + "begin", W + "end"], no_loop_specs=True))
     cs.append(Case(H + "sfc_write_block_contract", "any block", shape_sfc, target=["a816.writers.SFCWriter.write_block"]))
     return cs
 
